@@ -42,6 +42,13 @@ def programs(tier):
                     yield L, pos, act, 'fire-then-stop', None, sk
                 if pos < L and act[0] == 'mstop':
                     yield L, pos, act, 'stop-then-call', pos, False
+    # stop() called on a registered component that is not the running root: a manager that is not running - no effect
+    for L in (0, 1, 2):
+        for pos in range(0, L + 1):
+            for act in (('mstop', None), ('mstop', 3), ('sysexit', 0), ('kbd',)):
+                for ccode in (None, 5):
+                    for gen in (None, pos):
+                        yield L, pos, act, 'fire-then-stop', gen, ('child-stop', ccode)
     # a generator `stopped` handler that, after Y further steps, starts a chain of K events: however long the chain, run()
     # returns only after all of it has been dispatched (and the next cycle does not begin with left-overs)
     for L in (0, 1):
@@ -61,7 +68,9 @@ def build(program):
         ex = [('fire', 'x')] if extra else []
         ex = [('fire', 'x')] if extra is True else []
         if i == pos:
-            if order == 'fire-then-stop':
+            if isinstance(extra, tuple) and extra[0] == 'child-stop':
+                body = [('cstop', extra[1])] + nxt + [('fire', 'x'), ('cstop', extra[1]), act]
+            elif order == 'fire-then-stop':
                 body = nxt + ex + [act]
             elif order == 'stop-then-call':
                 body = [act, ('y', None), ('call', 'c%d' % (i + 1))]
